@@ -53,6 +53,12 @@ def gen(ctx, tier, rng):
             for fill in (0x00, 0xff):
                 for delta in ((0, 1, 2) if (fill == 0xff and n == 100) else (1,)):
                     L.append("pad.big %d %d %d %d" % (n, bs, fill, delta))
+    # buffer lengths of 2^32 and more ("for every buffer length"): the capacity is reserved without backing, only the final block is accessible
+    for n in [(1 << k) + d for k in (31, 32, 33, 36, 39) for d in (-3, -1, 0, 1, 2)] + [3 * (1 << 31) + 1, rng.randrange(1 << 32, 1 << 39)]:
+        for bs in (1, 2, 3, 7, 8, 16, 24, 255, 256, 257, 1000, 4096, 5000, 65537, (1 << 22) - 1):
+            L.append("pad.huge %d %d %d %d" % (n, bs, 0xff, 1))
+        L.append("pad.huge %d 3 0 0" % n)
+        L.append("pad.huge %d 3 255 2" % n)
     # blocksize 0, and out-of-contract n (n > cap): error / misuse paths
     buf = bytes(range(1, 33))
     L.append("pad %s 5 0" % hexs(buf))
@@ -99,7 +105,7 @@ def gen(ctx, tier, rng):
 def predicate(ctx, line, impl, model):
     p = line.split(" ")
     bx = lambda s: b"" if s == "-" else bytes.fromhex(s)
-    if p[0] == "pad.big":
+    if p[0] in ("pad.big", "pad.huge"):
         n, bs, delta = int(p[1]), int(p[2]), int(p[4])
         exp = "-1" if delta == 0 else "0 %d marker=128 tailnz=0 dataok=1 unpad=0,%d" % (padlen(n, bs), n)
         return impl != exp, "padding of a huge block is not 0x80 followed by zeros / does not round-trip" if impl != exp else "as specified"
